@@ -21,6 +21,8 @@ Lemma oidk_ostr k : oidk (Some (ostr_k k)) = Some k.
 Proof. unfold oidk, ostr_k. rewrite Nnat.Nat2N.id. reflexivity. Qed.
 Lemma skey_ostr k : skey false (ostr_k k) = Some (kid_of k). Proof. reflexivity. Qed.
 Lemma tstr_ostr k : tstr (Some (ostr_k k)) = true. Proof. reflexivity. Qed.
+Lemma ostr_k_inj a b : ostr_k a = ostr_k b -> a = b.
+Proof. unfold ostr_k. intros H. injection H as H. apply Nnat.Nat2N.inj. exact H. Qed.
 
 Definition flagP (evl : evlist) (en : StateModel.entry) (sd : bool) (k : nat) : Prop :=
   tchg (s_chg (gs en sd)) = true \/ pd evl sd k = true.
@@ -92,7 +94,8 @@ Record ShapeOk (w : world) (sd : bool) : Prop := {
 (* what a pending event says about its object *)
 Definition LogOk (evl : evlist) (w : world) (sd : bool) : Prop :=
   forall ev, In ev (evl sd) ->
-    exists k ob, ProvModel.e_oid ev = kid_of k /\ obj_at w sd k = Some ob /\ ProvModel.e_otype ev = ProvModel.o_kind ob /\
+    exists k ob, ProvModel.e_oid ev = kid_of k /\ (2 <= k)%nat /\ obj_at w sd k = Some ob /\
+                 ProvModel.e_otype ev = ProvModel.o_kind ob /\
                  (ProvModel.e_exists ev = false -> ProvModel.o_exists ob = false).
 
 Definition root_ent_ok (s : StateModel.state) : Prop :=
@@ -101,7 +104,8 @@ Definition root_ent_ok (s : StateModel.state) : Prop :=
     s_otype (e_l e0) = Dir /\ s_otype (e_r e0) = Dir /\
     s_oid (e_l e0) = Some (ostr_k 1) /\ s_oid (e_r e0) = Some (ostr_k 1) /\
     is_discarded (e_ign e1) = true /\ s_oid (e_l e1) = None /\ s_oid (e_r e1) = None /\
-    tchg (s_chg (e_l e1)) = false /\ tchg (s_chg (e_r e1)) = false.
+    tchg (s_chg (e_l e1)) = false /\ tchg (s_chg (e_r e1)) = false /\
+    set_mem 0%nat (cset s) = false /\ set_mem 1%nat (cset s) = false.
 
 Record InvP (evl : evlist) (g : ghost) (w : world) : Prop := {
   i_cfg : w_cfg w = cfg_std 1;
@@ -120,7 +124,171 @@ Record InvP (evl : evlist) (g : ghost) (w : world) : Prop := {
   i_cov : forall sd k, (2 <= k)%nat -> (k < length (ProvModel.p_heap (prov_of w sd)))%nat ->
           (exists e en, nth_error (ents (w_st w)) e = Some en /\ s_oid (gs en sd) = Some (ostr_k k)) \/ pd evl sd k = true;
   i_ents : forall e en, (2 <= e)%nat -> nth_error (ents (w_st w)) e = Some en -> EntOk evl g w e en;
-  i_ghost : forall sd k cs, g_get k (g_of g sd) = Some cs -> (2 <= k)%nat /\ (k < length (ProvModel.p_heap (prov_of w sd)))%nat
+  (* an object the engine made has an entry from the moment it exists *)
+  i_cove : forall sd k, (2 <= k)%nat -> (k < length (ProvModel.p_heap (prov_of w sd)))%nat -> g_get k (g_of g sd) = None ->
+           exists e en, nth_error (ents (w_st w)) e = Some en /\ s_oid (gs en sd) = Some (ostr_k k);
+  i_ghost : forall sd k cs, g_get k (g_of g sd) = Some cs ->
+            (2 <= k)%nat /\ exists ob r, obj_at w sd k = Some ob /\ cs = ProvModel.o_data ob :: r;
+  i_xlen : forall e sd, (length (ents (w_st w)) <= e)%nat -> getx w e sd = x0
 }.
 
 Definition Inv (g : ghost) (w : world) : Prop := InvP (real_evl w) g w.
+
+(* ------------------------------------------------------------------ frames *)
+Lemma flagP_mono evl evl' en sd k : (pd evl sd k = true -> pd evl' sd k = true) -> flagP evl en sd k -> flagP evl' en sd k.
+Proof. intros H [A|B]; [left; exact A|right; apply H; exact B]. Qed.
+
+(* an entry that a step does not touch stays fine when the step leaves its objects, its pending events (or adds some),
+   its refresh stamps and its ghost records alone *)
+Lemma FullOk_frame evl evl' g g' w w' e en sd k ob :
+  FullOk evl g w e en sd k ob ->
+  x_lg (getx w' e sd) = x_lg (getx w e sd) ->
+  (pd evl sd k = true -> pd evl' sd k = true) ->
+  g_get k (g_of g' sd) = g_get k (g_of g sd) ->
+  (forall k', s_oid (gs en (negb sd)) = Some (ostr_k k') ->
+     obj_at w' (negb sd) k' = obj_at w (negb sd) k' /\ g_get k' (g_of g' (negb sd)) = g_get k' (g_of g (negb sd))) ->
+  FullOk evl' g' w' e en sd k ob.
+Proof.
+  intros F Hlg Hpd Hg Hother. destruct F as [f1 f2 f3 f4 f5 f6 f7 f8 f9]. constructor; auto.
+  - destruct f2 as [A|[A|A]]; [left; auto|right; left; rewrite Hlg; exact A|right; right; exact A].
+  - intros Hd Ho. eapply flagP_mono; [exact Hpd|auto].
+  - intros Hd Ho. destruct (f7 Hd Ho) as [A|A]; [left; eapply flagP_mono; eauto|right; exact A].
+  - intros Hd cs Hcs. rewrite Hg in Hcs. destruct (f8 Hd cs Hcs) as (A & B & C & D & E0).
+    split; [exact A|]. split; [exact B|]. split; [exact C|]. split; [exact D|].
+    intros Ho. destruct (E0 Ho) as (E1 & E2 & E3 & E4). split; [exact E1|]. split; [exact E2|]. split.
+    + destruct E3 as [E3|(E3 & E5)]; [left; exact E3|right; split; [exact E3|eapply flagP_mono; eauto]].
+    + intros k' Hk'. destruct (Hother k' Hk') as (_ & Hg'). rewrite Hg'. apply E4. exact Hk'.
+  - intros Hd Hcs. rewrite Hg in Hcs. destruct (f9 Hd Hcs) as (A & B & C & D & E0 & F0 & (k' & ob' & G1 & G2 & G3 & G4)).
+    repeat (split; [assumption|]). exists k', ob'. destruct (Hother k' G1) as (Ho' & Hg').
+    split; [exact G1|]. split; [rewrite Ho'; exact G2|]. split; [exact G3|rewrite Hg'; exact G4].
+Qed.
+
+Lemma EntOk_frame evl evl' g g' w w' e en :
+  EntOk evl g w e en ->
+  (forall sd, x_lg (getx w' e sd) = x_lg (getx w e sd)) ->
+  (forall sd k, s_oid (gs en sd) = Some (ostr_k k) ->
+     obj_at w' sd k = obj_at w sd k /\ (pd evl sd k = true -> pd evl' sd k = true) /\
+     g_get k (g_of g' sd) = g_get k (g_of g sd)) ->
+  EntOk evl' g' w' e en.
+Proof.
+  intros [A B C] Hlg H. constructor; auto. intros sd. destruct (C sd) as [c1 c2 c3 c4]. constructor; auto.
+  intros o Ho. destruct (c4 o Ho) as (k & ob & -> & Hob & Hk & F). destruct (H sd k Ho) as (H1 & H2 & H3).
+  exists k, ob. split; [reflexivity|]. split; [rewrite H1; exact Hob|]. split; [exact Hk|].
+  eapply FullOk_frame; eauto. intros k' Hk'. destruct (H (negb sd) k' Hk') as (H4 & _ & H6). auto.
+Qed.
+
+(* ------------------------------------------------------------------ entries up to priority *)
+Lemma sbp_gs a b sd : same_but_prio a b -> gs a sd = gs b sd.
+Proof. intros (A & B & _). destruct sd; simpl; congruence. Qed.
+Lemma sbp_maxchg a b : same_but_prio a b -> maxchg a = maxchg b.
+Proof. intros (A & B & _). unfold maxchg, chgv. rewrite A, B. reflexivity. Qed.
+Lemma sbp_flagged a b : same_but_prio a b -> flagged a = flagged b.
+Proof. intros (A & B & _). unfold flagged. rewrite A, B. reflexivity. Qed.
+
+Lemma FullOk_sbp evl g w e a b sd k ob : same_but_prio a b -> FullOk evl g w e a sd k ob -> FullOk evl g w e b sd k ob.
+Proof.
+  intros S F. destruct a as [l r i p], b as [l' r' i' p']. destruct S as (S1 & S2 & S3). simpl in S1, S2, S3. subst l' r' i'.
+  destruct F as [f1 f2 f3 f4 f5 f6 f7 f8 f9].
+  constructor; [exact f1|exact f2|exact f3|exact f4|exact f5|exact f6|exact f7|exact f8|exact f9].
+Qed.
+Lemma EntOk_sbp evl g w e a b : same_but_prio a b -> EntOk evl g w e a -> EntOk evl g w e b.
+Proof.
+  intros S [A B C]. pose proof S as S'. destruct a as [l r i p], b as [l' r' i' p']. destruct S as (S1 & S2 & S3). simpl in S1, S2, S3. subst l' r' i'.
+  constructor; [exact A|exact B|].
+  intros sd. destruct (C sd) as [c1 c2 c3 c4]. constructor; [exact c1|exact c2|exact c3|].
+  intros o Ho. destruct (c4 o Ho) as (k & ob & X1 & X2 & X3 & X4). exists k, ob. repeat (split; [assumption|]).
+  eapply FullOk_sbp; [exact S'|exact X4].
+Qed.
+
+(* ------------------------------------------------------------------ the master preservation lemma *)
+(* One entry e (index >= 2) is touched: its value, its extension record, and the provider objects it points to may
+   change, new objects may appear; every other entry keeps its fields (priorities aside), its objects, its pending
+   events (more may come) and its ghost records. *)
+Lemma inv_master evl evl' g g' w w' e en' :
+  InvP evl g w ->
+  w_cfg w' = w_cfg w ->
+  (forall sd, PWF (prov_of w' sd) /\ ShapeOk w' sd /\ LogOk evl' w' sd) ->
+  (2 <= e)%nat ->
+  nth_error (ents (w_st w')) e = Some en' ->
+  (length (ents (w_st w)) <= length (ents (w_st w')))%nat ->
+  (forall x, (length (ents (w_st w)) <= x)%nat -> x <> e -> nth_error (ents (w_st w')) x = None) ->
+  (forall x xn, x <> e -> nth_error (ents (w_st w)) x = Some xn ->
+     exists xn', nth_error (ents (w_st w')) x = Some xn' /\ same_but_prio xn xn') ->
+  (forall x, x <> e -> set_mem x (cset (w_st w')) = set_mem x (cset (w_st w))) ->
+  (flagged en' = true -> set_mem e (cset (w_st w')) = true) ->
+  now (w_st w) <= now (w_st w') -> lastch (w_st w') <= now (w_st w') ->
+  maxchg en' <= now (w_st w') -> (forall sd, x_lg (getx w' e sd) <= now (w_st w')) ->
+  tape (w_st w') = [] -> IdxJ (w_st w') ->
+  (forall x sd, x <> e -> getx w' x sd = getx w x sd) ->
+  (forall sd, x_tfile (getx w' e sd) = None) ->
+  (forall x xn, x <> e -> (2 <= x)%nat -> nth_error (ents (w_st w)) x = Some xn ->
+     forall sd k, s_oid (gs xn sd) = Some (ostr_k k) ->
+       obj_at w' sd k = obj_at w sd k /\ (pd evl sd k = true -> pd evl' sd k = true) /\
+       g_get k (g_of g' sd) = g_get k (g_of g sd)) ->
+  (forall sd k, (2 <= k)%nat -> (k < length (ProvModel.p_heap (prov_of w' sd)))%nat ->
+     (exists x xn, nth_error (ents (w_st w')) x = Some xn /\ s_oid (gs xn sd) = Some (ostr_k k)) \/ pd evl' sd k = true) ->
+  (forall sd k, (2 <= k)%nat -> (k < length (ProvModel.p_heap (prov_of w' sd)))%nat -> g_get k (g_of g' sd) = None ->
+     exists x xn, nth_error (ents (w_st w')) x = Some xn /\ s_oid (gs xn sd) = Some (ostr_k k)) ->
+  (forall sd k cs, g_get k (g_of g' sd) = Some cs ->
+     (2 <= k)%nat /\ exists ob r, obj_at w' sd k = Some ob /\ cs = ProvModel.o_data ob :: r) ->
+  EntOk evl' g' w' e en' ->
+  InvP evl' g' w'.
+Proof.
+  intros I Hcfg Hprov He Hen' Hlen Hnew Hoth Hcs Hcse Hnow Hlast Hmax Hlg Htape Hidx Hx Htmp Hframe Hcov Hcove Hghost HE.
+  assert (Hold: forall x xn', x <> e -> nth_error (ents (w_st w')) x = Some xn' ->
+                exists xn, nth_error (ents (w_st w)) x = Some xn /\ same_but_prio xn xn').
+  { intros x xn' Hne Hx'. destruct (nth_error (ents (w_st w)) x) as [xn|] eqn:Ex.
+    - destruct (Hoth x xn Hne Ex) as (y & Hy & S). exists xn. split; [reflexivity|]. congruence.
+    - apply nth_error_None in Ex. rewrite (Hnew x Ex Hne) in Hx'. discriminate. }
+  constructor.
+  - rewrite Hcfg. apply (i_cfg _ _ _ I).
+  - intros sd. apply (Hprov sd).
+  - intros sd. apply (Hprov sd).
+  - intros sd. apply (Hprov sd).
+  - exact Hidx.
+  - exact Htape.
+  - intros x xn' Hx' Hfl. destruct (Nat.eq_dec x e) as [->|Hne].
+    + assert (xn' = en') by congruence. subst. apply Hcse. exact Hfl.
+    + destruct (Hold x xn' Hne Hx') as (xn & Hxn & S). rewrite (Hcs x Hne).
+      apply (i_csc _ _ _ I x xn Hxn). rewrite (sbp_flagged _ _ S). exact Hfl.
+  - intros x Hm. destruct (Nat.eq_dec x e) as [->|Hne].
+    + apply nth_error_Some. congruence.
+    + rewrite (Hcs x Hne) in Hm. pose proof (i_csb _ _ _ I x Hm). lia.
+  - exact Hlast.
+  - intros x xn' Hx'. destruct (Nat.eq_dec x e) as [->|Hne].
+    + assert (xn' = en') by congruence. subst. split; [exact Hmax|exact Hlg].
+    + destruct (Hold x xn' Hne Hx') as (xn & Hxn & S). destruct (i_clke _ _ _ I x xn Hxn) as (A & B).
+      rewrite <- (sbp_maxchg _ _ S). split; [lia|]. intros sd. rewrite (Hx x sd Hne). specialize (B sd). lia.
+  - destruct (i_roots _ _ _ I) as (e0 & e1 & H0 & H1 & R).
+    destruct (Hoth 0%nat e0 ltac:(lia) H0) as (e0' & H0' & (S0l & S0r & S0i)).
+    destruct (Hoth 1%nat e1 ltac:(lia) H1) as (e1' & H1' & (S1l & S1r & S1i)).
+    exists e0', e1'. rewrite <- S0l, <- S0r, <- S1l, <- S1r, <- S1i. split; [exact H0'|]. split; [exact H1'|].
+    rewrite (Hcs 0%nat ltac:(lia)), (Hcs 1%nat ltac:(lia)). exact R.
+  - intros x sd. destruct (Nat.eq_dec x e) as [->|Hne]; [apply Htmp|]. rewrite (Hx x sd Hne). apply (i_notmp _ _ _ I).
+  - exact Hcov.
+  - intros x xn' Hx2 Hx'. destruct (Nat.eq_dec x e) as [->|Hne].
+    + assert (xn' = en') by congruence. subst. exact HE.
+    + destruct (Hold x xn' Hne Hx') as (xn & Hxn & S). apply (EntOk_sbp _ _ _ _ xn xn' S).
+      apply (EntOk_frame evl evl' g g' w w' x xn (i_ents _ _ _ I x xn Hx2 Hxn)).
+      * intros sd. rewrite (Hx x sd Hne). reflexivity.
+      * intros sd k Ho. apply (Hframe x xn Hne Hx2 Hxn sd k Ho).
+  - exact Hcove.
+  - exact Hghost.
+  - intros x sd Hx'. destruct (Nat.eq_dec x e) as [->|Hne].
+    + exfalso. assert (e < length (ents (w_st w')))%nat by (apply nth_error_Some; congruence). lia.
+    + rewrite (Hx x sd Hne). apply (i_xlen _ _ _ I). lia.
+Qed.
+
+(* ------------------------------------------------------------------ worlds that differ in the sync state only *)
+Lemma prov_of_with_st w s sd : prov_of (with_st w s) sd = prov_of w sd. Proof. destruct sd; reflexivity. Qed.
+Lemma prov_of_commit w sd : prov_of (commit w) sd = prov_of w sd. Proof. destruct sd; reflexivity. Qed.
+Lemma prov_of_with_x w x sd : prov_of (with_x w x) sd = prov_of w sd. Proof. destruct sd; reflexivity. Qed.
+Lemma prov_of_setx w e sd0 f sd : prov_of (setx w e sd0 f) sd = prov_of w sd. Proof. destruct sd; reflexivity. Qed.
+
+Lemma ShapeOk_ext w w' sd : (forall k, obj_at w' sd k = obj_at w sd k) -> ShapeOk w sd -> ShapeOk w' sd.
+Proof. intros H [A B C]. constructor; [rewrite H; exact A|rewrite H; exact B|intros k ob Hk Hob; rewrite H in Hob; apply (C k ob Hk Hob)]. Qed.
+Lemma LogOk_ext evl evl' w w' sd : (forall k, obj_at w' sd k = obj_at w sd k) -> (forall ev, In ev (evl' sd) -> In ev (evl sd)) ->
+  LogOk evl w sd -> LogOk evl' w' sd.
+Proof.
+  intros H Hin L ev Hev. destruct (L ev (Hin ev Hev)) as (k & ob & A & B & C & D). exists k, ob. rewrite H. auto.
+Qed.
